@@ -24,3 +24,6 @@ func RunSelfTests() error {
 	}
 	return nil
 }
+
+// RacePassHook is set by the C13 check: the free-running pass executed by the -race binary.
+var RacePassHook func(iterations int) int
